@@ -40,14 +40,16 @@ PLAN = {
         unit("side", "TestC09RoundTrip", 300, 4000, replay="TestReplayC09"),
         unit("side", "TestC09Torn", 12, 150, shrinktime="30s", seed_off=300),
         unit("side", "TestC09Kill", 8, 120, shrinktime="30s", seed_off=800),
-        unit("side", "TestC09OldFile", 150, 2000, seed_off=600)]},
+        unit("side", "TestC09OldFile", 150, 2000, seed_off=600),
+        unit("sys", "TestC09Sys", 3, 20, replay="TestReplayC09Sys", seed_off=950, shrinktime="30s", workers={"quick": 8, "thorough": 16})]},
     "C10": {"level": "exploration", "units": [unit("side", "TestC10", 600, 12000, replay="TestReplayC10")]},
     "C11": {"level": "exploration", "units": [unit("cfgh", "TestC11", 600, 10000, replay="TestReplayC11", shrinktime="30s")]},
     "C12": {"level": "exploration", "units": [
         unit("side", "TestC12", 1000, 6000, replay="TestReplayC12"),
         unit("side", "TestC12Concurrent", 100, 1500, seed_off=400),
         unit("side", "TestC12Listener", 300, 3000, seed_off=900),
-        {"pkg": "side", "test": "FuzzC12", "kind": "fuzz", "fuzztime": {"thorough": "180s"}, "checks": {"quick": 0, "thorough": 0}, "replay": None}]},
+        {"pkg": "side", "test": "FuzzC12", "kind": "fuzz", "fuzztime": {"thorough": "180s"}, "checks": {"quick": 0, "thorough": 0}, "replay": None},
+        unit("sys", "TestC12Sys", 3, 20, replay="TestReplayC12Sys", seed_off=950, shrinktime="30s", workers={"quick": 8, "thorough": 16})]},
     "C13": {"level": "fault_enumeration", "units": [unit("side", "TestC13", 250, 3000, replay="TestReplayC13")]},
     "C14": {"level": "exploration", "units": [
         unit("side", "TestC14", 1000, 15000, replay="TestReplayC14"),
